@@ -2,6 +2,11 @@ module verifharness
 
 go 1.21
 
-require github.com/tjfoc/gmsm v0.0.0
+require (
+	github.com/tjfoc/gmsm v0.0.0
+	golang.org/x/crypto v0.0.0-20201012173705-84dcc777aaee
+)
+
+require golang.org/x/sys v0.0.0-20200930185726-fdedc70b468f // indirect
 
 replace github.com/tjfoc/gmsm => /repo
